@@ -741,6 +741,51 @@ func main() {
 			q(c.file), c.line, q(c.u.name), q(c.callee), c.held, lbool(c.goStmt))
 	}
 	b.WriteString("]\n\n")
+	// The element list of a stored template (template.ies) is handed out by getTemplateIEs and read by
+	// decodeDataSet AFTER the read lock is released. That is sound only because a published list is never
+	// changed in place: every syntactic use of `<x>.ies` that could do so (re-slicing, append to it, copy into
+	// it, assignment to one of its elements) is listed here, and a tie theorem requires the list to be empty.
+	type inplace struct {
+		file string
+		line int
+		kind string
+	}
+	var inpl []inplace
+	isIes := func(e ast.Expr) bool {
+		sel, ok := e.(*ast.SelectorExpr)
+		return ok && sel.Sel.Name == "ies"
+	}
+	for _, rel := range files {
+		rel := rel
+		ast.Inspect(parsed[rel], func(n ast.Node) bool {
+			switch x := n.(type) {
+			case *ast.SliceExpr:
+				if isIes(x.X) {
+					inpl = append(inpl, inplace{rel, line(x.Pos()), "reslice"})
+				}
+			case *ast.CallExpr:
+				if id, ok := x.Fun.(*ast.Ident); ok && len(x.Args) > 0 && isIes(x.Args[0]) && (id.Name == "append" || id.Name == "copy" || id.Name == "clear") {
+					inpl = append(inpl, inplace{rel, line(x.Pos()), id.Name})
+				}
+			case *ast.AssignStmt:
+				for _, l := range x.Lhs {
+					if ix, ok := l.(*ast.IndexExpr); ok && isIes(ix.X) {
+						inpl = append(inpl, inplace{rel, line(x.Pos()), "element-assign"})
+					}
+				}
+			}
+			return true
+		})
+	}
+	b.WriteString("/-- uses of a stored template's element list `.ies` that could change it in place (file, line, kind) -/\n")
+	b.WriteString("def templateIesInPlace : List (String × Nat × String) := [")
+	for i, u := range inpl {
+		if i > 0 {
+			b.WriteString(", ")
+		}
+		fmt.Fprintf(&b, "(%s, %d, %s)", q(u.file), u.line, q(u.kind))
+	}
+	b.WriteString("]\n\n")
 	b.WriteString("end LocksCollector\nend Generated\n")
 
 	out := filepath.Join(outdir, "LocksCollector.lean")
